@@ -43,6 +43,7 @@ ASSUMPTIONS = [
 ]
 
 OPS = ["fit1", "fit2", "predict", "pickle", "clone"]
+EXTRA_OPS = ["predict_other"]  # sampled histories only: predict / transform on the *other* dataset
 
 
 # ---- adapters: build / fit / state / predict per estimator kind ---------------------------------------------
@@ -321,6 +322,17 @@ def check(case):
             if not _same(before, ad.state(est, fitted_on)):
                 raise PropertyViolation(f"{what}: predict altered the fitted state")
             ad.check_params(est, params0, what)
+        elif op == "predict_other":
+            if fitted_on is None:
+                continue
+            before = ad.state(est, fitted_on)
+            try:  # the other dataset may legitimately be rejected (other width, unseen labels): no verdict on that
+                ad.predict(est, 3 - fitted_on, case["seed"])
+            except Exception:  # noqa: BLE001
+                tags.add("predict_other_rejected")
+            if not _same(before, ad.state(est, fitted_on)):
+                raise PropertyViolation(f"{what}: predicting on other data altered the fitted state")
+            ad.check_params(est, params0, what)
         elif op == "pickle":
             if not ad.pickles:
                 continue
@@ -381,7 +393,7 @@ def _labelled(draw, min_per=2, max_per=5, labels=None):
 def _ops_strategy(draw):
     """1..4 operations; four histories in five start with a fit so that later steps act on a fitted estimator."""
     first = draw(st.sampled_from(["fit1", "fit2", "fit1", "fit2", "any"]))
-    rest = draw(st.lists(st.sampled_from(OPS + ["fit1", "fit2"]), min_size=0, max_size=3))
+    rest = draw(st.lists(st.sampled_from(OPS + ["fit1", "fit2"] + EXTRA_OPS), min_size=0, max_size=3))
     if first == "any":
         return draw(st.lists(st.sampled_from(OPS), min_size=1, max_size=4))
     return [first] + rest
